@@ -15,10 +15,11 @@
     stated with this ACTUAL final item (`errTk`), and the token-level theorem is used in its
     variant for an arbitrary terminating follower (`Lemmas.ParserRound.parse_slot_entry_term`).
   * Hypotheses on the tree: `NamesOk ff e` (Lemmas/LexPrintNames.lean; a decidable `Bool`): names are
-    ASCII identifiers and not keywords where the lexer would read a keyword, index accesses are not
-    negative, string literals are well quoted, float literals have the shape `scanNumber` accepts
-    as a float (a hypothesis on the parameter `ff`); for the parse step in addition `Canon ff pf e`
-    (Props/C17.lean).  Both hold of every tree `parse.Expr` returns on ASCII-identifier input.
+    identifiers as the lexer reads them (letters / digits / `_` of any script in UTF-8, with the
+    first-character rule of each token kind) and not keywords where the lexer would read a keyword,
+    index accesses are not negative, string literals are well quoted, float literals have the shape
+    `scanNumber` accepts as a float (a hypothesis on the parameter `ff`); for the parse step in
+    addition `Canon ff pf e` (Props/C17.lean).  Both hold of every tree `parse.Expr` returns.
   * The facts about the GENERATED tables enter as `LexTableOK` (lexer: symbols, keywords, the set
     after which `-` is unary, `unicode.IsLetter/IsDigit` on ASCII) and `TableOK` (parser);
     `Inst/C17b.lean` discharges both by `decide` and restates the theorems without them.
